@@ -20,6 +20,10 @@ Theorem C02_leaf_sort_key : forall a b, key_gt a b = true <-> lex_gt (sort_key_s
 Proof. exact sort_key_agree. Qed.
 Print Assumptions C02_leaf_sort_key.
 
+Theorem C02_leaf_group : forall rest kept, grp_src kept rest = grp kept rest.
+Proof. exact grp_agree. Qed.
+Print Assumptions C02_leaf_group.
+
 Theorem C02_leaf_arity : forall m nargs names, arity_ok_src m nargs names = arity_ok m nargs names.
 Proof. exact arity_agree. Qed.
 Print Assumptions C02_leaf_arity.
